@@ -10,7 +10,7 @@ const char *behav_name(int b) {
 	static const char *n[] = {"honest", "foreign-id", "stale-gen", "other-hash", "broken-link", "lc-256", "lc-2^32", "low-level",
 		"wrong-agg-time", "wrong-pub-time", "bad-shape", "other-input", "altered-right-link", "status-err", "error-pdu",
 		"bad-mac", "other-key", "other-alg", "other-ver", "no-header", "no-mac", "truncated", "garbage-pdu", "conf-only",
-		"with-conf", "no-cal", "index-gap", "index-short", "index-prefix", "index-shape", "status-with-content", "extra-links"};
+		"with-conf", "no-cal", "index-gap", "index-short", "index-prefix", "index-shape", "status-with-content", "extra-links", "no-agg-time"};
 	return (b >= 0 && b < B__COUNT) ? n[b] : "?";
 }
 
@@ -366,7 +366,7 @@ std::string World::make_signature(const std::string &hash, uint64_t level, uint6
 
 std::string World::aggr_reply(const ReqInfo &rq, const EndpointCfg &ep, int behav, uint64_t subseed, ReplyMeta &meta) {
 	Rng rng(sim::mix(subseed, 0xa66));
-	if (behav == B_EXTRA_LINKS) behav = B_HONEST; // calendar-chain deviation of the extender
+	if (behav == B_EXTRA_LINKS || behav == B_NO_AGG_TIME) behav = B_HONEST; // calendar-chain deviations of the extender
 	meta = ReplyMeta();
 	meta.behav = behav;
 	uint64_t id = rq.id;
@@ -456,6 +456,10 @@ std::string World::ext_reply(const ReqInfo &rq, const EndpointCfg &ep, int behav
 	if (ct > cp) cp = ct;
 	CalChain cc = cal.chain(ct, cp);
 	if (behav == B_BAD_SHAPE && !cc.links.empty()) { size_t k = rng.below(cc.links.size()); cc.links[k].left = !cc.links[k].left; }
+	if (behav == B_NO_AGG_TIME) {
+		if (ct == cp) { behav = B_HONEST; meta.behav = B_HONEST; } // nothing is omitted in effect
+		else cc.has_agg = false;
+	}
 	if (behav == B_EXTRA_LINKS) {
 		// still folds to some root and keeps input, times and (as a prefix) every genuine right link - only the shape betrays it
 		int n = 1 + (int)rng.below(3);
